@@ -13,11 +13,11 @@ cleanup() { git -C /repo worktree remove --force "$WT"; }
 trap cleanup EXIT
 cd "$WT"
 if ! git apply "$OUT/patch$K.diff"; then echo "RESULT $SID patch-does-not-apply"; exit 2; fi
-PYTHONPATH="$WT" /venv/bin/python "$DEMO" >/tmp/vs_demo_with.$SID 2>&1; DW=$?
+PYTHONPATH="$WT:$OUT" /venv/bin/python "$DEMO" >/tmp/vs_demo_with.$SID 2>&1; DW=$?
 PYTHONPATH="$WT" timeout 1800 /venv/bin/python -m pytest -q -p no:cacheprovider -n 16 -x tests >/tmp/vs_suite.$SID 2>&1; SU=$?
 SUMMARY="$(tail -1 /tmp/vs_suite.$SID)"
 git checkout -q -- .
-PYTHONPATH="$WT" /venv/bin/python "$DEMO" >/tmp/vs_demo_without.$SID 2>&1; DO=$?
+PYTHONPATH="$WT:$OUT" /venv/bin/python "$DEMO" >/tmp/vs_demo_without.$SID 2>&1; DO=$?
 echo "RESULT $SID demo_with_patch_rc=$DW suite_rc=$SU ($SUMMARY) demo_without_rc=$DO"
 if [ $DW -ne 0 ] && [ $SU -eq 0 ] && [ $DO -eq 0 ]; then
   mkdir -p "$HERE/seeded/$SID"
